@@ -19,7 +19,7 @@ from ..util import (
     json_b64decode,
     urlsafe_b64encode,
 )
-from ..errors import BadSignatureError
+from ..errors import BadSignatureError, DecodeError
 from .registry import JWSRegistry, construct_registry, check_b64_header
 from ..registry import check_disjoint_headers
 
@@ -114,6 +114,8 @@ def _extract_json(value: FlattenedJSONSerialization) -> t.Optional[FlattenedJSON
         return None
     check_b64_header(protected)
 
+    if "payload" not in value:
+        raise DecodeError("Missing payload")
     payload = to_bytes(value["payload"])
     obj = FlattenedJSONSignature(member, payload)
     _sig: JSONSignatureDict = {"signature": value["signature"]}
